@@ -172,6 +172,7 @@ def run_check(mod, tier, seed):
     if not ok:
         ctx.oracle_only = True  # no driver: correspondence cannot run; oracle still can
     try:
+        _run_corpus(mod, ctx, rep)
         mod.run(ctx, rep)
     except lean_bridge.subprocess.TimeoutExpired as e:
         infra = f'timeout: {e}'
@@ -256,6 +257,24 @@ def run_check(mod, tier, seed):
           f'({len(rep.nontrivial)} distinct non-trivial), disagreements {len(rep.disagreements)}, '
           f'violations {len(new_viol)}, known {len(known_hit)}, {ev["wall_s"]}s -> exit {status}', flush=True)
     return status
+
+
+def _run_corpus(mod, ctx, rep):
+    """Minimised past failures (corpus/<ID>/*.json: inputs on which some earlier or seeded version of the code broke
+    the property) are replayed through the oracle before anything else."""
+    import contextlib, glob, io
+    n = 0
+    for path in sorted(glob.glob(os.path.join(VERIF, 'corpus', mod.ID, '*.json'))):
+        try:
+            data = json.load(open(path))
+            with contextlib.redirect_stdout(io.StringIO()):
+                mod.replay(ctx, rep, data['case'])
+            n += 1
+        except Exception as e:  # noqa: BLE001
+            rep.notes.append(f'corpus case {os.path.basename(path)} could not be replayed: {e!r}')
+    if n:
+        rep.dist['corpus_cases_replayed'] = n
+        rep.evaluations += n
 
 
 def _first_error(log):
